@@ -108,8 +108,47 @@ SL_SCHEMAS = {
 }
 
 
+TY_FIELDS = [
+    {"id": 1, "name": "k", "type": "long", "required": True},
+    {"id": 2, "name": "d", "type": "date", "required": False},
+    {"id": 3, "name": "ts", "type": "timestamp", "required": False},
+    {"id": 4, "name": "t", "type": "time", "required": False},
+    {"id": 5, "name": "n", "type": "long", "required": False},
+    {"id": 6, "name": "m", "type": "int", "required": False},
+]
+
+
+def ty_value(name: str):
+    """Value classes for temporal / exact-numeric columns: (column, value).  Built at run time (not JSON-able)."""
+    import datetime as dt
+    from decimal import Decimal
+    tz5 = dt.timezone(dt.timedelta(hours=5))
+    return {
+        "date_ok": ("d", dt.date(2024, 3, 1)),
+        "datetime_into_date": ("d", dt.datetime(2024, 3, 1, 23, 59, 58)),
+        "float_into_date": ("d", 19000.9),
+        "ts_ok": ("ts", dt.datetime(2024, 3, 1, 12, 0, 0, 250000)),
+        "ts_tz_aware": ("ts", dt.datetime(2024, 3, 1, 12, 0, 0, tzinfo=tz5)),
+        "float_into_ts": ("ts", 1700000000.75),
+        "time_ok": ("t", dt.time(1, 2, 3)),
+        "float_into_time": ("t", 1.9),
+        "decimal_frac_into_long": ("n", Decimal("7.9")),
+        "decimal_frac_into_int": ("m", Decimal("-0.5")),
+        "long_ok": ("n", 12345678901),
+    }[name]
+
+
+TY_CLASSES = ["date_ok", "datetime_into_date", "float_into_date", "ts_ok", "ts_tz_aware", "float_into_ts", "time_ok",
+              "float_into_time", "decimal_frac_into_long", "decimal_frac_into_int", "long_ok"]
+
+
 def gen(rng: random.Random, tier: str, idx: int) -> dict:
     backend = "local" if rng.random() < 0.7 else "s3"
+    if rng.random() < 0.06:
+        # temporal and exact-numeric columns: each appended value is either refused or read back EQUAL to what was
+        # supplied (a datetime cut to a date, a zone dropped, a fraction truncated is a silently altered value)
+        return {"backend": backend, "mode": "types",
+                "steps": [{"cls": rng.choice(TY_CLASSES), "fresh": rng.random() < 0.5} for _ in range(rng.randint(2, 6))]}
     if rng.random() < 0.1:
         # a table created WITHOUT a schema (legal): every append passes its own schema; same or different from the
         # earlier ones, under one schema_id or another, through a reused or a fresh handle
@@ -255,6 +294,69 @@ def py_filter(rows: List[tuple], col: str, op: str, val) -> List[tuple]:
     return out
 
 
+def execute_types(plan: dict, scratch: str) -> dict:
+    common.fresh_scratch(scratch)
+    seed = plan.get("run_seed", 0)
+    backend = plan["backend"]
+    ph = Phase(plan, scratch, backend, seed, core.Policy(), max_steps=60000)
+    w, sim = ph.world, ph.sim
+    V: List[dict] = []
+    trace = []
+    flags = {"acc": 0, "rej": 0}
+
+    def body():
+        import datashard
+        from datashard import Schema
+        t = datashard.create_table(w.table_path, schema=Schema(schema_id=1, fields=copy.deepcopy(TY_FIELDS)))
+        for si, st in enumerate(plan["steps"]):
+            if st.get("fresh"):
+                t = datashard.load_table(w.table_path)
+            col, val = ty_value(st["cls"])
+            desc = f"step {si}: append {{k: {si}, {col}: {val!r}}} ({st['cls']})"
+            try:
+                t.append_records([{"k": si, col: val}])
+                accepted = True
+            except (core.SimDead, core.SimKilled, NameError, ImportError, AttributeError):
+                raise
+            except Exception as e:
+                accepted = False
+                trace.append((desc, f"rejected {type(e).__name__}"))
+            if not accepted:
+                flags["rej"] += 1
+                sim.probe("typed_value_rejected")
+                continue
+            flags["acc"] += 1
+            sim.probe("typed_value_accepted")
+            trace.append((desc, "accepted"))
+            try:
+                rows = datashard.load_table(w.table_path).scan()
+            except (core.SimDead, core.SimKilled):
+                raise
+            except Exception as e:
+                V.append({"clause": "E.accepted_breaks_scan", "sig": f"E.accepted_breaks_scan|types|{st['cls']}",
+                          "msg": f"[{backend}] {desc}: accepted, then scan() raises {type(e).__name__}: {str(e)[:120]}"})
+                return
+            got = [r for r in rows if r.get("k") == si]
+            try:
+                same = len(got) == 1 and got[0].get(col) == val and type(got[0].get(col)) is not bool
+            except TypeError:
+                same = False
+            if not same:
+                V.append({"clause": "E.unrepresentable_accepted", "sig": f"E.unrepresentable_accepted|types|{st['cls']}",
+                          "msg": f"[{backend}] {desc}: accepted, but scans return {got[0].get(col)!r} for it" if got else
+                                 f"[{backend}] {desc}: accepted, but the row is not returned"})
+                return
+    sim.spawn(sim.proc("p0"), "h", body)
+    ph.run()
+    if sim.outcome != "ok":
+        V = []
+    res = common.assemble(ph, V[:1], flags["acc"] > 0 and flags["rej"] > 0, backend + "/types", {"steps": trace})
+    import hashlib
+    res["sched_sig"] = hashlib.sha1(repr((backend, trace)).encode()).hexdigest()
+    w.cleanup()
+    return res
+
+
 def execute_schemaless(plan: dict, scratch: str) -> dict:
     common.fresh_scratch(scratch)
     seed = plan.get("run_seed", 0)
@@ -331,6 +433,8 @@ def execute_schemaless(plan: dict, scratch: str) -> dict:
 def execute(plan: dict, scratch: str, replay: Optional[dict] = None) -> dict:
     if plan.get("mode") == "schemaless":
         return execute_schemaless(plan, scratch)
+    if plan.get("mode") == "types":
+        return execute_types(plan, scratch)
     from datashard import DataFile, FileFormat, Schema
     import pyarrow as pa
     import pyarrow.parquet as pq
